@@ -324,7 +324,7 @@ def gen_sweep(rng: random.Random, tier: str) -> dict:
 
 
 def gen(rng: random.Random, tier: str) -> dict:
-    if rng.random() < (0.004 if tier == "quick" else 0.004):
+    if rng.random() < (0.004 if tier == "quick" else 0.001):
         return gen_sweep(rng, tier)
     cfg = docgen.config(rng) if rng.random() < 0.6 else dict(BASE_CFG)
     nt = 1 if rng.random() < 0.12 else (2 if (tier == "quick" or rng.random() < 0.6) else 3)
@@ -804,7 +804,7 @@ class C13(Engine):
     def budget(self, tier):
         if tier == "quick":
             return {"runs": 16_000, "wall_s": 150, "selftest_samples": 24, "selftest_two_hashseeds": True}
-        return {"runs": 400_000, "wall_s": 2400, "selftest_samples": 48}
+        return {"runs": 300_000, "wall_s": 2700, "selftest_samples": 48}
 
     def warmup(self):
         from markdown_it import MarkdownIt
